@@ -9,6 +9,9 @@ C02-d  hash-what-you-use pairing: the (buffer, length) pair produced by read_dat
        write_and_verify_chunk hash exactly what they write.
 C02-f  validate_file / validate_header / validate_chunk return a positive verdict only on the equal edge of their
        digest comparison (named exception: validate_file under has_uncompressed_source).
+C02-g  a backend that decompresses a chunk as a unit compares the number of bytes produced with the announced size
+       before it hands the buffer on.
+C02-h  in comp_read a short count from read_data() (end of file inside a chunk) never reaches a success return.
 C02-e  unzck: exit status 0 / kept output only through zck_close()==true with every read/write
        failure leaving to the error exit (R1 over main + gate).
 """
@@ -227,6 +230,11 @@ def run(ctx):
         # ---- f the dictionary chunk is consumed before the data chunks are delivered
         from ..rules import extra
         extra.check_dict_consumed(ck, prog, config, 'C02-f')
+        # ---- g/h byte counts on the reader side
+        from ..rules import produced
+        np_ = produced.check_produced_size(ck, prog, config, 'C02-g')
+        ck.min_instances('hand-overs of a unit-decompressed buffer', np_, 1)
+        produced.check_eof_in_chunk(ck, prog, config, 'C02-h')
         # ---- e
         um = [f for f in prog.by_name.get('main', []) if f.unit.endswith('unzck.c')]
         ck.require(len(um) == 1, 'unzck main not found')
@@ -258,6 +266,12 @@ def run(ctx):
 
 
 MUTANTS = [
+    {'id': 'm02g', 'desc': 'zstd: produced size not compared with the announced size (pre-fix form)', 'file': 'src/lib/comp/zstd/zstd.c',
+     'old': 'if(retval != fd_size) {', 'new': 'if(retval > fd_size) {', 'expect': 'R2.produced-size end_dchunk'},
+    {'id': 'm02h', 'desc': 'end of file inside a chunk only logged', 'file': 'src/lib/comp/comp.c',
+     'old': """            set_fatal_error(zck, "Unexpected end of file inside chunk %llu",
+                            (long long unsigned) zck->comp.data_idx->number);
+            goto read_error;""", 'new': """            zck_log(ZCK_LOG_DDEBUG, "EOF");""", 'expect': 'R2.eof-in-chunk comp_read'},
     {'id': 'm03', 'desc': 'header gate weakened to < 0', 'file': 'src/lib/header.c',
      'old': """    int ret = validate_header(zck);
     if(ret < 1) {""", 'new': """    int ret = validate_header(zck);
@@ -319,11 +333,11 @@ MUTANTS = [
 
 CLAIM = {
     'technique': 'must-pass-through gate analysis on verdict edges (path-sensitive class engine), call-order '
-                 'typestate, (buffer,count) pairing between read and hash/decoder consumers, tool exit gate, verdict-function gates on the equal edge of a byte-wise comparison primitive (memcmp or an OR-fold helper recognised by shape)',
+                 'typestate, (buffer,count) pairing between read and hash/decoder consumers, tool exit gate, verdict-function gates on the equal edge of a byte-wise comparison primitive (memcmp or an OR-fold helper recognised by shape), produced-size and end-of-file-inside-a-chunk typestates on the reader side',
     'text': 'static analysis: decides clauses C02-a..e - every success exit of the header reader, of the chunk end '
             'and of the read-mode close lies on the >=1 edge of the corresponding checksum verdict; header fields '
             'are parsed only after the header gate; the bytes handed to the decoder are exactly the bytes hashed; '
-            'unzck exits 0 only through zck_close()==true. Equality with an independent decoder is not decided. C02-f: validate_file/header/chunk are positive only on the equal edge of a byte-wise digest comparison.',
+            'unzck exits 0 only through zck_close()==true. Equality with an independent decoder is not decided. C02-f: validate_file/header/chunk are positive only on the equal edge of a byte-wise digest comparison. C02-g: the zstd backend hands on a decompressed chunk only after result == announced size. C02-h: end of file inside a chunk is a failure of the read, never a short success.',
     'note': 'trusted: clang 14 front end; gate = branch edge refining the verdict call result into {1,>1}; '
             'pairing compares access paths after substituting single-definition locals',
 }
